@@ -49,7 +49,11 @@ PROPS['C09'] = dict(
         ('RegionFacts', 'greedy_stops_clean', 'GreedyRange: a failing element leaves the stream at the end of the last success.'),
         ('RegionFacts', 'greedy_step', 'GreedyRange: the elements are the successive successes, each from the end of the previous one.'),
         ('RegionFacts', 'greedy_explicit_escapes', 'GreedyRange re-raises ExplicitError.'),
+        ('FrameFacts', 'parse_frame', 'For EVERY construct (induction over all classes): a parse returns the stream it was given with at most another position.'),
+        ('FrameFacts', 'pointer_restores', 'Pointer over ANY inner construct returns a seekable stream exactly as it was: whatever the inner parse did elsewhere leaves no trace.'),
+        ('FrameFacts', 'peek_restores', 'Peek over ANY inner construct (success or swallowed failure) returns a seekable stream exactly as it was.'),
     ],
+    requires=['ConInd'],
     examples='''
 Example C09_ex_select_partial :
   parse_at (CSequence [CSelect [CSequence [CFormat Big FB; CConst (VInt 7) (CFormat Big FB)]; CFormat Big FB]; CTell])
@@ -401,4 +405,34 @@ Example C18_ex_nested :
   sizeof (CStruct [CRenamed [x68] (CStruct [CRenamed [x65] (CIfThenElse (XItem (XRoot RThis) (KName [x6b])) (CFormat Big FB) (CFormat Big FH))])]) (top_ctx [] MSize) []
     = Err ESizeof (Some [[x68]; [x65]]).
 Proof. split; vm_compute; reflexivity. Qed.
+''')
+
+
+PROPS['C16'] = dict(
+    title='C16 - lazy parsing is observationally equal to eager parsing under any access order',
+    requires=['ConInd', 'Lazy', 'FrameFacts', 'RTFacts'],
+    prelude='Local Open Scope nat_scope.',
+    theorems=[
+        ('FrameFacts', 'parse_frame', 'For EVERY construct of the model (induction over all classes and loops, the lazy ones included): the stream a parse returns is the stream it was given with at most another position - same buffer, base offset and seekability.'),
+        ('FrameFacts', 'lazy_force_restores', 'A deferred parse (Lazy()(), LazyContainer/LazyListContainer.__getitem__) of ANY construct leaves a seekable stream exactly as it found it.'),
+        ('LazyFacts', 'lazy_access_restores', 'Every access to a lazy result leaves the stream exactly as it found it: the surrounding parse is not disturbed.'),
+        ('LazyFacts', 'lazy_history_order_independent', 'For every lazy result and EVERY access history (any order, any repetitions, any length): each access returns what the first access of that member on the freshly parsed result returns, at the position the parse left; an access that raises raises what the fresh access raises.'),
+        ('LazyFacts', 'lazy_value_history_independent', 'The same member accessed at any step of any two histories returns the same value.'),
+        ('LazyFacts', 'lazy_history_positions', 'Every position reported along any history is the position the parse left.'),
+        ('LazyFacts', 'lazy_parse_table_complete', 'A parsed lazy result has an offset for every member and one for the end, on the stream it was parsed from.'),
+        ('LazyFacts', 'lazyarray_matches_array', 'Whenever the eager Array parses (element independent of _index, measured size = consumed size), LazyArray parses to the same final stream and every element, whenever first accessed, is the eager element.'),
+        ('LazyFacts', 'elem_ok_format', 'The element hypothesis holds for every fixed-size Int*/Float* (measured and skipped).'),
+        ('LazyFacts', 'elem_ok_varint', 'The element hypothesis holds for VarInt (not measurable: parsed at once and cached).'),
+    ],
+    examples='''
+Example C16_ex_history :
+  lazy_run (CLazyStruct [CRenamed [x61] (CFormat Big FB); CRenamed [x62] CVarInt; CRenamed [x63] (CFormat Big FH)]) []
+           [x07; x81; x02; x01; x00; xff] 0%N [2; 0; 1; 1; 2; 0]
+  = Ok (5%Z, [LVal (VInt 256) 5; LVal (VInt 7) 5; LVal (VInt 257) 5; LVal (VInt 257) 5; LVal (VInt 256) 5; LVal (VInt 7) 5]).
+Proof. vm_compute. reflexivity. Qed.
+
+Example C16_ex_array :
+  lazy_run (CLazyArray (XConst (VInt 3)) CVarInt) [] [x81; x01; x05; xff; x7f] 0%N [2; 0; 2; 1]
+  = Ok (5%Z, [LVal (VInt 16383) 5; LVal (VInt 129) 5; LVal (VInt 16383) 5; LVal (VInt 5) 5]).
+Proof. vm_compute. reflexivity. Qed.
 ''')
